@@ -67,7 +67,8 @@ func NewChannel(
 		PromptPattern:     getPromptPattern(),
 		ReturnChar:        []byte(DefaultReturnChar),
 
-		done: make(chan struct{}),
+		done:   make(chan struct{}),
+		exited: make(chan struct{}),
 
 		Q:    util.NewQueue(),
 		Errs: make(chan error),
@@ -107,7 +108,11 @@ type Channel struct {
 	PromptPattern     *regexp.Regexp
 	ReturnChar        []byte
 
-	done chan struct{}
+	done   chan struct{}
+	exited chan struct{}
+
+	closeOnce sync.Once
+	closeErr  error
 
 	Q              *util.Queue
 	Errs           chan error
@@ -180,11 +185,20 @@ func (c *Channel) Open() (reterr error) {
 	return nil
 }
 
-// Close signals to stop the channel read loop and closes the underlying Transport object.
+// Close signals to stop the channel read loop and closes the underlying Transport object. Calling
+// Close more than once is safe, later calls return the result of the first.
 func (c *Channel) Close() error {
+	c.closeOnce.Do(func() {
+		c.closeErr = c.close()
+	})
+
+	return c.closeErr
+}
+
+func (c *Channel) close() error {
 	c.l.Info("channel closing...")
 
-	close(c.Errs)
+	// note: c.Errs is deliberately *not* closed, the read loop may be about to send on it.
 
 	ch := make(chan struct{})
 
@@ -192,7 +206,11 @@ func (c *Channel) Close() error {
 		go func() {
 			defer close(ch)
 
-			c.done <- struct{}{}
+			select {
+			case c.done <- struct{}{}:
+			case <-c.exited:
+				// the read loop went away on its own (EOF) before it could see our signal
+			}
 		}()
 	} else {
 		close(ch)
